@@ -268,6 +268,11 @@ class Scen:
     async def client(self):
         method, url, kw, exp = request_kwargs(self.case["req"])
         self.exp_req = exp
+        opts = self.case["req"]
+        if opts.get("read_bufsize"):
+            kw["read_bufsize"] = opts["read_bufsize"]
+        if opts.get("sock_read"):
+            kw["timeout"] = ClientTimeout(total=None, sock_read=opts["sock_read"])
         await self.one(method, url, kw)
         self.phase = "settle"
         self.gate = self.loop.create_future()
@@ -277,13 +282,14 @@ class Scen:
         self.phase = "done"
 
     async def one(self, method, url, kw):
+        t0 = self.loop.time()
         try:
             async with self.session.request(method, url, **kw) as resp:
                 body = await resp.read()
                 self.got.append({"status": resp.status, "reason": resp.reason, "headers": [(k, v) for k, v in resp.headers.items() if k.startswith("X-")],
                                  "body": body, "version": tuple(resp.version) if resp.version else None})
         except Exception as e:  # noqa: BLE001
-            self.got.append({"error": f"{type(e).__name__}: {e}"[:120]})
+            self.got.append({"error": f"{type(e).__name__}: {e}"[:120], "t": self.loop.time() - t0})
 
     # ---- environment
     def _structural(self, pending: bytes):
@@ -389,7 +395,9 @@ class Scen:
             self.P("no-result", "the caller got nothing")
         else:
             g = self.got[0]
-            if "error" in g:
+            if "error" in g and g["error"].startswith("SocketTimeoutError") and g["t"] >= (self.case["req"].get("sock_read") or 1e9):
+                pass        # the schedule let sock_read seconds pass with this exchange's bytes still in transit: a true timeout
+            elif "error" in g:
                 self.P(f"client-error:{g['error'].split(':')[0]}", g["error"])
             elif self.exp_resp:
                 e = self.exp_resp[0]
@@ -505,6 +513,12 @@ def cases(quick):
     for kind in ("bytes", "stream2", "stream0", "file"):
         add(f"resp/http10-{kind}", {"http10": True}, {"kind": kind, "size": 100})
     add("resp/close-req", {"close": True}, {"kind": "stream2", "size": 100})
+    # client read options: a read buffer small enough that the body's last segment pauses the transport, with a
+    # sock_read timeout; the pooled connection must still serve the second request after idling
+    for kind in ("bytes", "stream3"):
+        for n in (2049, 65537):
+            add(f"resp/{kind}-{n}-sockread", {"read_bufsize": 1024, "sock_read": 5}, {"kind": kind, "size": n})
+    add("req/bytes-3000-sockread", {"method": "POST", "body": "bytes", "size": 3000, "sock_read": 5}, canon_resp)
     return out
 
 
